@@ -80,3 +80,240 @@ theorem addString_fits (t : T) (s : Name) (h : PoolOK t) :
   · unfold addString; exact hfit.2.pos
 
 end Qsx.Symtab
+
+namespace Qsx.Symtab
+
+/-! ### the pool invariant over histories -/
+
+def wt : Option Name → Nat
+  | some s => s.length + 1
+  | none => 0
+
+def wsum (l : List (Option Name)) : Nat := (l.map wt).sum
+
+theorem foldl_add_eq (f : Nat → Ent → Nat) (hf : ∀ a e, f a e = a + wt e.name) (l : List Ent) (a : Nat) :
+    l.foldl f a = a + wsum (l.map (·.name)) := by
+  induction l generalizing a with
+  | nil => simp [wsum]
+  | cons e l ih =>
+    simp only [List.foldl_cons, List.map_cons]
+    rw [ih, hf]
+    unfold wsum
+    simp only [List.map_cons, List.sum_cons]
+    omega
+
+theorem poolUsed_eq (ents : Array Ent) : poolUsed ents = wsum (ents.toList.map (·.name)) := by
+  unfold poolUsed
+  rw [← Array.foldl_toList, foldl_add_eq]
+  · simp
+  · intro a e
+    split
+    · rename_i s h; rw [h]; simp [wt]; omega
+    · rename_i h; rw [h]; simp [wt]
+
+theorem poolUsed_abs (t : T) : poolUsed t.ents = wsum (abs t) := poolUsed_eq t.ents
+
+theorem wsum_append (a b : List (Option Name)) : wsum (a ++ b) = wsum a + wsum b := by
+  simp [wsum]
+
+theorem wsum_set_le (l : List (Option Name)) (d : Nat) (x : Option Name) :
+    wsum (l.set d x) ≤ wsum l + wt x := by
+  induction l generalizing d with
+  | nil => simp [wsum]
+  | cons a l ih =>
+    cases d with
+    | zero => simp [wsum]; omega
+    | succ d =>
+      have := ih d
+      simp only [List.set_cons_succ, wsum, List.map_cons, List.sum_cons] at this ⊢
+      omega
+
+theorem wsum_dropLast_le (l : List (Option Name)) : wsum l.dropLast ≤ wsum l := by
+  induction l with
+  | nil => simp [wsum]
+  | cons a l ih =>
+    cases l with
+    | nil => simp [wsum]
+    | cons b l' =>
+      simp only [List.dropLast_cons_cons, wsum, List.map_cons, List.sum_cons] at ih ⊢
+      omega
+
+theorem wsum_swapRemove_le (l : List (Option Name)) (d : Nat) (hd : d < l.length) :
+    wsum (swapRemove l d) ≤ wsum l := by
+  unfold swapRemove
+  split
+  · exact wsum_dropLast_le l
+  · rename_i hne
+    cases hgl : l.getLast? with
+    | none => exact le_refl _
+    | some x =>
+      simp only
+      -- l = l' ++ [x]
+      have hl : l = l.dropLast ++ [x] := by
+        have := List.dropLast_append_getLast? x hgl
+        exact this.symm
+      have hdl : d < l.dropLast.length := by
+        rw [List.length_dropLast]; omega
+      have hset : (l.set d x) = (l.dropLast.set d x) ++ [x] := by
+        conv_lhs => rw [hl]
+        rw [List.set_append_left _ _ hdl]
+      rw [hset, List.dropLast_concat]
+      have h1 := wsum_set_le l.dropLast d x
+      have h2 : wsum l = wsum l.dropLast + wt x := by
+        conv_lhs => rw [hl]
+        rw [wsum_append]; simp [wsum]
+      omega
+
+/-- the pool invariant: a non-empty pool, the live strings below `strsize`, `strsize` inside the pool -/
+structure PoolInv (t : T) : Prop where
+  ok : PoolOK t
+  le : t.strsize ≤ t.strspace
+
+theorem create_poolInv (n : Nat) : PoolInv (create n) := by
+  unfold create
+  refine ⟨⟨?_, ?_⟩, ?_⟩
+  · show 0 < (if (n == 0) = true then 1000 else n) * 5
+    split
+    · omega
+    · rename_i h; simp at h; omega
+  · simp [poolUsed]
+  · simp
+
+theorem grow_pool (t : T) : (grow t).strsize = t.strsize ∧ (grow t).strspace = t.strspace ∧ (grow t).ents = t.ents :=
+  ⟨rfl, rfl, rfl⟩
+
+theorem growWhile_pool (fuel : Nat) (t : T) :
+    (growWhile fuel t).strsize = t.strsize ∧ (growWhile fuel t).strspace = t.strspace ∧ (growWhile fuel t).ents = t.ents := by
+  induction fuel generalizing t with
+  | zero => exact ⟨rfl, rfl, rfl⟩
+  | succ f ih =>
+    unfold growWhile
+    split
+    · obtain ⟨a, b, c⟩ := ih (grow t)
+      exact ⟨a, b, c⟩
+    · exact ⟨rfl, rfl, rfl⟩
+
+theorem poolInv_of (t t' : T) (h : PoolInv t) (h1 : t'.strsize = t.strsize) (h2 : t'.strspace = t.strspace)
+    (h3 : poolUsed t'.ents ≤ poolUsed t.ents) : PoolInv t' :=
+  ⟨⟨by rw [h2]; exact h.ok.pos, by rw [h1]; exact le_trans h3 h.ok.used⟩, by rw [h1, h2]; exact h.le⟩
+
+/-- `add_string` followed by storing the new name in some entry (a fresh one or entry `i`) -/
+theorem addString_poolInv (t : T) (s : Name) (h : PoolOK t) (t' : T)
+    (hents : poolUsed t'.ents ≤ poolUsed t.ents + (s.length + 1))
+    (hs : t'.strsize = (addString t s).strsize) (hp : t'.strspace = (addString t s).strspace) :
+    PoolInv t' := by
+  have hfit := addStringLoop_fits (s.length + 1) (2 * (t.strsize + (s.length + 1)) + 64) t h (by split <;> omega)
+  have hused := hfit.2.used
+  rw [(addStringLoop_same _ t _).2.2.1] at hused
+  have hss : (addString t s).strsize = (addStringLoop (2 * (t.strsize + (s.length + 1)) + 64) t (s.length + 1)).strsize + (s.length + 1) := rfl
+  have hsp : (addString t s).strspace = (addStringLoop (2 * (t.strsize + (s.length + 1)) + 64) t (s.length + 1)).strspace := rfl
+  refine ⟨⟨by rw [hp, hsp]; exact hfit.2.pos, by rw [hs, hss]; omega⟩, by rw [hs, hp, hss, hsp]; exact hfit.1⟩
+
+theorem register_poolInv {t : T} (h : PoolInv t) (s : Option Name) (idx : Int) : PoolInv (register t s idx).1 := by
+  unfold register
+  have h0 : PoolInv (if idx < 0 then { t with indexOk := false } else t) := by
+    split
+    · exact poolInv_of t _ h rfl rfl (le_refl _)
+    · exact h
+  generalize (if idx < 0 then { t with indexOk := false } else t) = t0 at h0
+  cases s with
+  | none =>
+    simp only
+    obtain ⟨a, b, c⟩ := growWhile_pool 64 t0
+    refine poolInv_of t0 _ h0 a b ?_
+    show poolUsed ((growWhile 64 t0).ents.push _) ≤ _
+    rw [c, poolUsed_eq, poolUsed_eq]
+    simp [wsum, wt]
+  | some n =>
+    simp only
+    cases hl : lookup t0 n with
+    | some k => exact h0
+    | none =>
+      simp only
+      obtain ⟨a, b, c⟩ := growWhile_pool 64 (addString t0 n)
+      refine addString_poolInv t0 n h0.ok _ ?_ a b
+      show poolUsed ((growWhile 64 (addString t0 n)).ents.push { name := some n, index := idx }) ≤ _
+      rw [c, (addString_same t0 n).2.2.1, poolUsed_eq, poolUsed_eq]
+      simp [wsum, wt]
+
+theorem delete_poolInv {t : T} (hw : WF t) (h : PoolInv t) (s : Name) : PoolInv (delete t s).1 := by
+  obtain ⟨he, _⟩ := delete_ents t s
+  have hsz : (delete t s).1.strsize = t.strsize ∧ (delete t s).1.strspace = t.strspace := by
+    unfold delete
+    cases lookup t s with
+    | none => exact ⟨rfl, rfl⟩
+    | some d =>
+      simp only
+      split
+      · exact ⟨rfl, rfl⟩
+      · split <;> exact ⟨rfl, rfl⟩
+  refine poolInv_of t _ h hsz.1 hsz.2 ?_
+  rw [he]
+  cases hl : lookup t s with
+  | none => exact le_refl _
+  | some d =>
+    simp only
+    have hd := nameAt_lt ((lookup_iff hw s d).mp hl)
+    rw [poolUsed_eq, delEnts_abs t d hd, poolUsed_abs]
+    exact wsum_swapRemove_le (abs t) d (by rw [abs_length]; exact hd)
+
+theorem removeFromBucket_pool (t : T) (i : Nat) (os : Name) :
+    (removeFromBucket t i os).strsize = t.strsize ∧ (removeFromBucket t i os).strspace = t.strspace ∧
+    (removeFromBucket t i os).ents = t.ents := ⟨rfl, rfl, rfl⟩
+
+theorem poolUsed_modify_le (ents : Array Ent) (i : Nat) (nm : Option Name) :
+    poolUsed (ents.modify i (fun v => { v with name := nm })) ≤ poolUsed ents + wt nm := by
+  rw [poolUsed_eq, poolUsed_eq, abs_modify_name]
+  exact wsum_set_le _ i nm
+
+theorem rename_poolInv {t : T} (h : PoolInv t) (i : Nat) (nn : Option Name) : PoolInv (rename t i nn).1 := by
+  unfold rename
+  split
+  · exact h
+  cases hk : nn.bind (lookup t) with
+  | some k => exact h
+  | none =>
+    simp only
+    -- the state after unlinking has the same pool numbers and entries
+    have hu : ∀ t1 : T, (t1 = t ∨ ∃ os, t1 = removeFromBucket t i os) →
+        t1.strsize = t.strsize ∧ t1.strspace = t.strspace ∧ t1.ents = t.ents := by
+      rintro t1 (rfl | ⟨os, rfl⟩)
+      · exact ⟨rfl, rfl, rfl⟩
+      · exact removeFromBucket_pool t i os
+    cases hold : nameAt t i with
+    | none =>
+      simp only
+      cases nn with
+      | none =>
+        simp only
+        refine poolInv_of t _ h rfl rfl ?_
+        have := poolUsed_modify_le t.ents i none
+        simpa [wt] using this
+      | some ns =>
+        simp only
+        refine addString_poolInv t ns h.ok _ ?_ rfl rfl
+        show poolUsed ((addString t ns).ents.modify i _) ≤ _
+        rw [(addString_same t ns).2.2.1]
+        have := poolUsed_modify_le t.ents i (some ns)
+        simpa [wt] using this
+    | some os =>
+      simp only
+      obtain ⟨a, b, c⟩ := removeFromBucket_pool t i os
+      have h1 : PoolInv (removeFromBucket t i os) := poolInv_of t _ h a b (by rw [c])
+      cases nn with
+      | none =>
+        simp only
+        refine poolInv_of t _ h a b ?_
+        show poolUsed ((removeFromBucket t i os).ents.modify i _) ≤ _
+        rw [c]
+        have := poolUsed_modify_le t.ents i none
+        simpa [wt] using this
+      | some ns =>
+        simp only
+        refine addString_poolInv (removeFromBucket t i os) ns h1.ok _ ?_ rfl rfl
+        show poolUsed ((addString (removeFromBucket t i os) ns).ents.modify i _) ≤ _
+        rw [(addString_same (removeFromBucket t i os) ns).2.2.1]
+        have := poolUsed_modify_le (removeFromBucket t i os).ents i (some ns)
+        simpa [wt] using this
+
+end Qsx.Symtab
